@@ -53,6 +53,17 @@ class Prop(Bip32Prop):
         add(3, 32, -1)
         add(4, 21, H)
         add(0, 12, -1)
+        # PRF substitution on the LAST DERIVATION STEP so that the private key at the application path has
+        # leading zero bytes (1, 2 and 12 of them): the HMAC message must still be the full 32-byte key
+        app_paths = {0: lambda p, i: [83696968 + H, 39 + H, H, p + H, i + H], 1: lambda p, i: [83696968 + H, 2 + H, i + H],
+                     2: lambda p, i: [83696968 + H, 32 + H, i + H], 3: lambda p, i: [83696968 + H, 128169 + H, p + H, i + H],
+                     4: lambda p, i: [83696968 + H, 707764 + H, p + H, i + H]}
+        for app, param, nz in ((3, 32, 1), (1, 0, 2), (0, 12, 1), (4, 21, 12), (2, 0, 1), (3, 64, 3)):
+            m = masters[j % len(masters)]
+            path = app_paths[app](param, 7)
+            stub = self.stub_for_last_step(m, path, rng, ki=rng.randrange(1, 2 ** (8 * (32 - nz))))
+            cases.append({"kind": "B85", "start": m, "app": app, "param": param, "index": 7, "stub": stub, "note": "derived key with %d leading zero bytes" % nz})
+            j += 1
         # PRF substitution on the final entropy call (ordinal = number of derivation steps)
         for app, nsteps in ((1, 3), (2, 3)):
             for secret in (0, N, 2 ** 256 - 1, N - 1, 1):
